@@ -5,7 +5,7 @@ import random, itertools, collections
 PID = 'C11'
 HEADER = []
 T0 = 2000000000
-RULE = ('net-chain / net-tree / net-tree-global families (op rt_net): COMPLETE multi-hop runs of one event on the real code - pure chains of depth 2-14 (every target zone, originators above/inside/below the target) and zone trees (depth <= 5, <= 4 children per zone, forests, 1-2 global zones) with a non-global target anywhere (originators on the line, below it, in side branches) or a global-zone target, 1-2 endpoints per zone, random names; link sets: all directly related pairs / a few missing / a random half, plus links between unrelated endpoints; delivery schedule fifo / lifo / seeded random; at every node the real JsonRpcConnection::MessageHandler and either the verif::Relay handler (CanAccessObject test + SyncRelayMessage) or, for host targets, the REAL event::SetNextCheck handler chain through the asynchronous relay queue; checked by the extracted network oracle (nobody twice, fewer deliveries than endpoints, complete under the premise). activation-order family: chains of depth 5-12 with side branches (and random trees), Zone::OnAllConfigLoaded re-run for all zones top-down / bottom-up / in random order, ancestor chains read back and relay steps routed over them; random zone trees (depth 1-4, 1-2 endpoints per zone, shuffled endpoint names, 0-2 global zones) x local identity x '
+RULE = ('multi-net-* families (op rt_netm): 2-4 DISTINCT events in one network on the real code (same topologies/link sets/targets as net-*), originators equal or different, time stamps all equal (one clock tick) / non-decreasing / increasing / decreasing (clock stepped back) / arbitrary, originations interleaved with deliveries or sequential, clock standing still or ticking, per-connection FIFO schedules; every node keeps its own remote log positions; checked per EVENT by the network oracle when the clock never ran backwards, and per delivery against the rule handler-did-not-run iff ts < position. net-chain / net-tree / net-tree-global families (op rt_net): COMPLETE multi-hop runs of one event on the real code - pure chains of depth 2-14 (every target zone, originators above/inside/below the target) and zone trees (depth <= 5, <= 4 children per zone, forests, 1-2 global zones) with a non-global target anywhere (originators on the line, below it, in side branches) or a global-zone target, 1-2 endpoints per zone, random names; link sets: all directly related pairs / a few missing / a random half, plus links between unrelated endpoints; delivery schedule fifo / lifo / seeded random; at every node the real JsonRpcConnection::MessageHandler and either the verif::Relay handler (CanAccessObject test + SyncRelayMessage) or, for host targets, the REAL event::SetNextCheck handler chain through the asynchronous relay queue; checked by the extracted network oracle (nobody twice, fewer deliveries than endpoints, complete under the premise). activation-order family: chains of depth 5-12 with side branches (and random trees), Zone::OnAllConfigLoaded re-run for all zones top-down / bottom-up / in random order, ancestor chains read back and relay steps routed over them; random zone trees (depth 1-4, 1-2 endpoints per zone, shuffled endpoint names, 0-2 global zones) x local identity x '
         'connectivity row (none/all/related/random, optional second older connection) x origin (local, received from a connected '
         'peer through the real JsonRpcConnection::MessageHandler with every claimed originZone, hand-made MessageOrigin, anonymous client) '
         'x target (Host in any zone, the Zone object itself, CheckCommand in a global zone, no security object) x log flag; plus a '
@@ -24,7 +24,7 @@ TRUSTED = ['model: coq/Route/RtModel.v, RtLoad.v (transcription of ApiListener::
 ASSUMPTIONS = ['endpoint names sort like their numbers (harness names them e%03d)',
                'connectivity is symmetric in the network theorems (a TCP connection has two ends)',
                'zones have at most two endpoints (the property\'s bound; Zone::ValidateEndpointsRaw warns beyond that) - with three, the persist decision for the local zone depends on iteration order',
-               'the ts < remote_log_position filter of MessageHandler (C12) never drops a fresh event: messages of one sender arrive in order',
+               'a connection delivers in order (per-connection FIFO) and a node\'s clock does not run backwards: then the ts < remote_log_position filter of MessageHandler drops nothing (C11_net_multi_event_complete); with a clock stepped back it does drop (compared against the rule only)',
                'zone chain depth <= 32 (Zone::OnAllConfigLoaded rejects deeper ones), global zones have no parent/children/endpoints']
 
 
